@@ -21,6 +21,8 @@ import (
 	"testing"
 	"unicode/utf8"
 
+	"google.golang.org/protobuf/proto"
+
 	"github.com/mutagen-io/mutagen/pkg/filesystem/behavior"
 	"github.com/mutagen-io/mutagen/pkg/synchronization/core"
 	"github.com/mutagen-io/mutagen/pkg/synchronization/core/ignore"
@@ -413,6 +415,14 @@ func checkSnapshot(root string, snap *core.Snapshot, o walkOpts) string {
 	}
 	if d := diffEntry("", want, snap.Content); d != "" {
 		return d
+	}
+	// A snapshot is a wire message: it must satisfy its own invariants and be
+	// encodable (a name that is not UTF-8 stored as a key makes Marshal fail).
+	if err := snap.EnsureValid(); err != nil {
+		return "snapshot fails its own EnsureValid: " + err.Error()
+	}
+	if _, err := proto.Marshal(snap); err != nil {
+		return "snapshot cannot be marshalled: " + err.Error()
 	}
 	var cc xcounts
 	contentCounts(snap.Content, &cc)
